@@ -289,3 +289,11 @@ impl Drop for LocustDB {
         self.inner_locustdb.stop();
     }
 }
+
+// verification hooks: read-only accessor (add-only, feature `verif`)
+#[cfg(feature = "verif")]
+impl LocustDB {
+    pub fn verif_inner(&self) -> &Arc<InnerLocustDB> {
+        &self.inner_locustdb
+    }
+}
